@@ -130,12 +130,13 @@ pub fn arg_value(i: usize) -> u64 {
 
 fn arg_vectors() -> Vec<Vec<ATy>> {
     let mut out = vec![];
-    for len in 0..=3usize {
+    let full = if std::env::var("VERIF_TIER").as_deref() == Ok("thorough") { 4 } else { 3 };
+    for len in 0..=full {
         for idx in 0..ATYS.len().pow(len as u32) {
             out.push(util::decode(idx, &vec![ATYS.len(); len]).iter().map(|i| ATYS[*i].clone()).collect());
         }
     }
-    for len in 4..=6usize {
+    for len in (full + 1)..=6usize {
         for rot in 0..ATYS.len() {
             out.push((0..len).map(|i| ATYS[(i + rot) % ATYS.len()].clone()).collect());
         }
@@ -206,6 +207,7 @@ fn cases() -> Vec<Case> {
         ("unresolvable_pointer_return", "pub type T {\n    pub x: u64,\n}\nimpl T {\n    #[address(0x10000)]\n    pub fn f(&self) -> *mut Nope;\n}\n"),
         ("index_on_impl_function", "pub type T {\n    pub x: u64,\n}\nimpl T {\n    #[address(0x10000), index(1)]\n    pub fn f(&self);\n}\n"),
         ("negative_address", "pub type T {\n    pub x: u64,\n}\nimpl T {\n    #[address(-16)]\n    pub fn f(&self);\n}\n"),
+        ("duplicate_function_across_impl_blocks", "pub type T {\n    pub x: [u32; 4],\n}\nimpl T {\n    #[address(0x10000)]\n    pub fn f(&self);\n}\nimpl T {\n    #[address(0x10040)]\n    pub fn f(&self, a: u32);\n    #[address(0x10080)]\n    pub fn g(&self);\n}\n"),
         ("duplicate_function", "pub type T {\n    pub x: u64,\n}\nimpl T {\n    #[address(0x10000)]\n    pub fn f(&self);\n    #[address(0x10040)]\n    pub fn f(&self, a: u32);\n}\n"),
     ] {
         out.push(Case { funcs: vec![], style: NumStyle::Dec, exec: false, reject: Some(why), raw: Some(text.to_string()), split_impl: false, arg_names: None, expect_methods: vec![] });
@@ -353,6 +355,11 @@ fn judge_exec(c: &Case, recs: &[Record]) -> Option<(String, String)> {
         }
     }
     None
+}
+
+/// Inputs for C13 (single-module cases that are expected to be accepted).
+pub fn all_inputs() -> Vec<pipe::Input> {
+    cases().iter().filter(|c| c.reject.is_none() && c.raw.is_none()).map(|c| pipe::Input::single(module_of(c))).collect()
 }
 
 pub fn run(tier: &str, only: Option<&Value>) -> i32 {
